@@ -248,10 +248,8 @@ class ExcFlow:
         return False
 
 
-_cache: dict[int, ExcFlow] = {}
-
-
 def excflow(repo: Repo) -> ExcFlow:
-    if id(repo) not in _cache:
-        _cache[id(repo)] = ExcFlow(repo)
-    return _cache[id(repo)]
+    store = repo.__dict__.setdefault('_wc_cache', {})
+    if 'excflow' not in store:
+        store['excflow'] = ExcFlow(repo)
+    return store['excflow']
